@@ -2,6 +2,9 @@
 // Workload "calc": calculators x enumerated single-fault placements (guarded hook sites) and
 // natural failures; snapshot oracle on both data bases; usability by repeating the call.
 #include "worldgen.hpp"
+#include "Calculators/CalcGridToGrid.hpp"
+#include "Estimation/CalcImage.hpp"
+#include "Enum/EMorpho.hpp"
 
 #include "Basic/NamingConvention.hpp"
 #include "Basic/VerifHook.hpp"
@@ -97,8 +100,9 @@ std::string snapPrefix(const Snap& b, const Snap& a, std::vector<int>& newCols)
 
 // ---------------------------------------------------------------- calculators
 const char* CALCS[] = {"kriging", "xvalid", "test_neigh", "simtub", "simtub_nc", "simfft", "migrate", "migrateMulti", "migrateByLocator",
-                       "statsOnGrid", "invdist", "nearest", "movave", "movmed", "lstsqr", "regression", "kribayes", "krigcell", "simbayes"};
-const int NCALCS = 19;
+                       "statsOnGrid", "invdist", "nearest", "movave", "movmed", "lstsqr", "regression", "kribayes", "krigcell", "simbayes",
+                       "g2gcopy", "g2gexpand", "g2gshrink", "morpho"};
+const int NCALCS = 23;
 
 struct Call
 {
@@ -163,7 +167,7 @@ bool needsModel(const std::string& c)
 // where results are written
 Db* targetOf(Invocation& iv)
 {
-  if (iv.c.calc == "xvalid" || iv.c.calc == "regression") return iv.dbin;
+  if (iv.c.calc == "xvalid" || iv.c.calc == "regression" || iv.c.calc == "morpho") return iv.dbin;
   return iv.dbout;
 }
 
@@ -344,6 +348,23 @@ int invoke(Invocation& iv, int& expectedNew)
     delete mb;
     return r;
   }
+  if (k == "g2gcopy" || k == "g2gexpand" || k == "g2gshrink")
+  {
+    DbGrid* gin = dynamic_cast<DbGrid*>(dbin);
+    DbGrid* gout = dynamic_cast<DbGrid*>(dbout);
+    expectedNew = 1;
+    if (k == "g2gcopy") return dbg2gCopy(gin, gout);
+    if (k == "g2gexpand") return dbg2gExpand(gin, gout);
+    return dbg2gShrink(gin, gout);
+  }
+  if (k == "morpho")
+  {
+    // morphological operations on the (grid) data base itself: input and output are the same Db
+    static const EMorpho* opers[] = {&EMorpho::THRESH, &EMorpho::NEGATION, &EMorpho::EROSION, &EMorpho::DILATION, &EMorpho::OPEN, &EMorpho::CLOSE};
+    DbGrid* g = dynamic_cast<DbGrid*>(dbin);
+    expectedNew = 1;
+    return dbMorpho(g, *opers[c.optA % 6], 9., 11. + c.optB % 3, c.optC % 2, VectorInt(), false, false);
+  }
   if (k == "simbayes")
   {
     int nbsimu = 1 + c.optA % 2;
@@ -369,6 +390,10 @@ bool admissible(const std::string& k, const WorldSpec& w)
   if (k == "statsOnGrid") return w.outKind == 0;
   if (k == "krigcell") return false; // needs block extension columns: not built by this generator
   if (k == "kribayes" || k == "simbayes") return w.nfex == 0 && w.nvar == 1;
+  // grid-to-grid and image calculators: the input Db is rebuilt as a grid related to the target grid (see gridInputFor)
+  if (k == "g2gcopy" || k == "morpho") return w.outKind == 0 && w.nvar == 1 && w.nfex == 0 && w.selIn == 0;
+  if (k == "g2gexpand") return w.outKind == 0 && w.nvar == 1 && w.nfex == 0 && w.selIn == 0 && w.ndim >= 2;
+  if (k == "g2gshrink") return w.outKind == 0 && w.nvar == 1 && w.nfex == 0 && w.selIn == 0 && w.ndim <= 2;
   if (k == "simtub_nc") return w.nfex == 0;
   if (k == "simtub") return w.nfex == 0 || w.fexInData; // with an external drift carried by both data bases
   if (k == "lstsqr" || k == "movave" || k == "movmed") return w.neighKind == 1;
@@ -394,6 +419,38 @@ struct ExecOut
   bool failed = false;
 };
 
+// Grid-to-grid and image calculators take a grid as input: the data base of the world is replaced by a grid that shares
+// the leading (copy), fewer (expand) or more (shrink) dimensions of the target grid, with one variable 'za';
+// for 'morpho' input and output are that one grid.
+void gridInputFor(World& W, const std::string& calc)
+{
+  if (!(calc == "g2gcopy" || calc == "g2gexpand" || calc == "g2gshrink" || calc == "morpho")) return;
+  DbGrid* out = dynamic_cast<DbGrid*>(W.dbout);
+  if (out == nullptr) return;
+  int nd = out->getNDim();
+  int ndin = (calc == "g2gexpand") ? nd - 1 : (calc == "g2gshrink" ? nd + 1 : nd);
+  if (ndin < 1 || ndin > 3) return;
+  VectorInt nx;
+  VectorDouble dx, x0;
+  for (int d = 0; d < ndin; d++)
+  {
+    nx.push_back(d < nd ? out->getNX(d) : 3);
+    dx.push_back(d < nd ? out->getDX(d) : 1.);
+    x0.push_back(d < nd ? out->getX0(d) : 0.);
+  }
+  int nd0 = getDefaultSpaceDimension();
+  defineDefaultSpace(ESpaceType::RN, ndin);
+  DbGrid* gin = DbGrid::create(nx, dx, x0);
+  defineDefaultSpace(ESpaceType::RN, nd0);
+  VectorDouble z(gin->getSampleNumber());
+  uint64_t s = W.spec.seed * 2862933555777941757ULL + 3037000493ULL;
+  for (auto& v : z) { s = s * 6364136223846793005ULL + 1442695040888963407ULL; v = 8. + (double)((s >> 33) % 600) / 100.; }
+  gin->addColumns(z, "za", ELoc::Z);
+  if (W.dbin != W.dbout) delete W.dbin;
+  W.dbin = gin;
+  if (calc == "morpho") { delete W.dbout; W.dbout = gin; }
+}
+
 void execCall(const Plan& p, Ctx& c, bool traceMode, const std::string& expectDigest)
 {
   childInit();
@@ -408,6 +465,7 @@ void execCall(const Plan& p, Ctx& c, bool traceMode, const std::string& expectDi
   if (!wop || !cop) { c.line("Z plan-without-world-or-call"); return; }
   World W;
   buildWorld(W, specFromOp(*wop));
+  gridInputFor(W, callFromOp(*cop).calc);
   Invocation iv;
   iv.W = &W;
   iv.c = callFromOp(*cop);
@@ -744,8 +802,8 @@ struct CalcWorkload : Workload
       if (ill == 8 && !(k == "simtub" || k == "simtub_nc" || k == "simfft" || k == "simbayes")) continue;
       if (ill == 11 && !(k == "migrate" || k == "migrateMulti" || k == "regression")) continue;
       if ((ill == 1 || ill == 9 || ill == 12) && (k == "simtub_nc" || k == "simfft")) continue;
-      if (ill == 6 && (k == "xvalid" || k == "regression")) continue;
-      if (ill == 2 && (k == "xvalid" || k == "regression")) continue;
+      if (ill == 6 && (k == "xvalid" || k == "regression" || k == "morpho")) continue;
+      if (ill == 2 && (k == "xvalid" || k == "regression" || k == "morpho")) continue;
       runOne(derived(nullptr, ill));
     }
     return rr;
